@@ -223,10 +223,13 @@ def rule_completed(facts):
             if blk.term.k != "switch":
                 continue
             t = tm.of_operand(blk.term.discr)
-            if t[0] in ("Ge", "Gt", "Le", "Lt", "Eq", "Ne") and \
-                    flow.term_has(t, lambda q: q[0] == "call" and q[1].endswith("LzBuffer::len")) and \
-                    flow.term_has(t, lambda q: q[0] == "field" and q[1] == "unpacked_size"):
-                tests.append((x, t))
+            # (the verdict may come out of a spliced `is_done()?` helper: then the test is one alternative of the value tested)
+            alts = list(t[1]) if (t[0] == "phi" and len(t) == 2 and isinstance(t[1], tuple) and t[1] and not isinstance(t[1][0], str)) else [t]
+            for t in alts:
+                if isinstance(t, tuple) and t and t[0] in ("Ge", "Gt", "Le", "Lt", "Eq", "Ne") and \
+                        flow.term_has(t, lambda q: q[0] == "call" and q[1].endswith("LzBuffer::len")) and \
+                        flow.term_has(t, lambda q: q[0] == "field" and q[1] == "unpacked_size"):
+                    tests.append((x, t))
         r.need("size test inside the core loop", len(tests) >= 1)
         for x, t in tests[:1]:
             r.sites += 1
